@@ -2,7 +2,7 @@
 import z3
 
 from pyvc.contracts import Any, Bool, Const, DictT, ExtSpec, ExtT, Int, ListOfT, LoopSpec, ObjT, OptT, Str
-from pyvc.values import BoundMethod, Opaque, Ref
+from pyvc.values import BoundMethod, HObj, Opaque, Ref
 
 from .a_common import F
 from .a_submit import CARGS, MG, TF
@@ -40,11 +40,25 @@ def register(R):
             'submission_task_goes_to_the_submission_executor': (B(len(sub) == 1 and sub[0].recv is c.oldf('_submission_executor')), ['C10', 'C18']),
             'fresh_transfer_id_per_transfer': (c.newf('_id_counter') == c.oldf('_id_counter') + 1, ['C18']),
         }
+        # the submission task works with THIS manager's client / config / executors and this transfer's future, plus the
+        # extra kwargs of the public method (the shared bandwidth limiter, C13)
+        mk_ev = [e for e in tr if e.kind == 'ext' and e.name == 'submission_task_cls.()']
+        okk = False
+        if len(mk_ev) == 1 and isinstance(mk_ev[0].kwargs.get('main_kwargs'), Ref):
+            mk = c.new.obj(mk_ev[0].kwargs['main_kwargs']).items
+            extra = c.new.obj(c.a_extra_main_kwargs).items if isinstance(c.a_extra_main_kwargs, Ref) else {}
+            want = {'client': c.oldf('_client'), 'config': c.oldf('_config'), 'osutil': c.oldf('_osutil'), 'request_executor': c.oldf('_request_executor')}
+            okk = set(mk) == set(want) | {'transfer_future'} | set(extra) and all(mk[k] is v for k, v in want.items()) \
+                and all(mk[k] is v for k, v in extra.items()) and mk['transfer_future'] is c.result \
+                and mk_ev[0].kwargs.get('transfer_coordinator') is c.new.f(c.result, '_coordinator') if isinstance(c.result, Ref) else False
+        out['submission_task_gets_this_managers_collaborators_and_the_extra_kwargs'] = (B(bool(okk)), ['C18', 'C13', 'C10'])
         return out
 
     R.contract(
-        f'{TM}._submit_transfer', props=['C18', 'C08', 'C10', 'C07'],
+        f'{TM}._submit_transfer', props=['C18', 'C08', 'C10', 'C07', 'C13'],
         params=dict(call_args=ObjT(CARGS), submission_task_cls=ExtT('submission_task_cls'), extra_main_kwargs=Const(None)),
+        param_alternatives={'extra_main_kwargs': [('no_extra', Const(None)), ('with_limiter', Const(lambda eng, st: st.alloc(
+            HObj('dict', items={'bandwidth_limiter': Opaque('the_bandwidth_limiter', kind='bandwidth_limiter')}))))]},
         returns=ExtT('transfer_future'), raise_when={'Exception': lambda c: None},
         inline_callees=[f'{TM}._get_future_with_components'],
         checks=st_checks, raises={'Exception': lambda c: {}}, loops={0: trivial_loop()},
